@@ -279,28 +279,49 @@ theorem callHook_false_called (u : Nat) (hn : String) (s : State) (h : (callHook
     · erw [if_neg hraise]
       exact (squiet_notify u "hook_success" none hn s1).ext.hook u hn hb
 
-theorem kKill_logged (p sg : Nat) (via : String) (s : State) :
+/-- the daemon's `kill` is in the log unless the daemon hangs — when the kernel did not refuse it (a refused one,
+    EPERM, is logged with the tag `via ++ "!"`: it is no delivery) -/
+theorem kKill_logged (p sg : Nat) (via : String) (s : State) (hnd : (kKill p sg via s).1 ≠ .denied) :
     (∃ st, Obs.sig p sg st via ∈ (kKill p sg via s).2.log) ∨ (kKill p sg via s).2.blocked = true := by
+  have hd : (s.k.killD p sg).2.2 = false := by
+    cases hx : (s.k.killD p sg).2.2 with
+    | false => rfl
+    | true =>
+      exfalso; apply hnd
+      simp [kKill, bind, pure, runK, emit, modS, SigRes.of, hx]
   unfold kKill
   simp only [bind, pure, emit, modS, runK]
   by_cases hb : s.blocked = true
   · right
     simp [hb, Obs.isRep, Obs.isEv]
   · left
-    refine ⟨(s.k.kill p sg).2, ?_⟩
-    simp [hb, Obs.isRep, Obs.isEv]
+    refine ⟨(s.k.killD p sg).2.1, ?_⟩
+    simp [hb, hd, Obs.isRep, Obs.isEv]
 
-/-- **`Watcher.send_signal(p, sig)`** leaves the evidence `Began` behind, whatever it returns -/
-theorem sendSignal_began (u p sg : Nat) (s : State) (ho : HasObj s p) : Began (sendSignal u p sg s).2 u p sg := by
-  unfold sendSignal
-  simp only [bind]
+/-- **`Watcher.send_signal(p, sig)`** leaves the evidence `Began` behind, whatever it returns — unless it ends with
+    `AccessDenied` (the kernel refused the signal: EPERM), which ends `kill_process` too -/
+theorem sendSignal_began (u p sg : Nat) (s : State) (ho : HasObj s p) (hnd : (sendSignal u p sg s).1 ≠ .denied) :
+    Began (sendSignal u p sg s).2 u p sg := by
   have e1 : (getW u s).2 = s := rfl
   by_cases hc : (getW u s).1.pids.contains p = true
-  · erw [if_pos hc]
+  · -- what `send_signal` returns when the signal is sent and the kernel refuses it
+    have hden : ∀ rv s1, callHook u "before_signal" s = (rv, s1) → ¬ ((decide (sg ≠ 9) && !rv) = true) →
+        (kKill p sg "" s1).1 = .denied → (sendSignal u p sg s).1 = .denied := by
+      intro rv s1 hr hv hd
+      unfold sendSignal
+      simp only [bind]
+      erw [if_pos hc]
+      rw [e1, hr]
+      erw [if_neg hv]
+      erw [if_neg (by rw [hd]; decide)]
+      exact hd
+    unfold sendSignal
+    simp only [bind]
+    erw [if_pos hc]
     rw [e1]
     have hq0 := squiet_callHook u "before_signal" s
     have hfc := callHook_false_called u "before_signal" s
-    generalize callHook u "before_signal" s = r at hq0 hfc
+    generalize hr : callHook u "before_signal" s = r at hq0 hfc
     obtain ⟨rv, s1⟩ := r
     have ho1 : HasObj s1 p := hq0.ext.obj p ho
     by_cases hv : (decide (sg ≠ 9) && !rv) = true
@@ -317,7 +338,7 @@ theorem sendSignal_began (u p sg : Nat) (s : State) (ho : HasObj s p) : Began (s
       have hq2 := squiet_callHook u "after_signal" s1
       exact Or.inr (Or.inr (Or.inl ⟨hsg, hq2.ext.hook _ _ hcalled⟩))
     · erw [if_neg hv]
-      have hk := kKill_logged p sg "" s1
+      have hk := kKill_logged p sg "" s1 (fun hd => hnd (hden rv s1 hr hv hd))
       have hqk := squietW_kKill p sg "" s1
       generalize kKill p sg "" s1 = rk at hk hqk
       obtain ⟨ok, s2⟩ := rk
@@ -325,65 +346,81 @@ theorem sendSignal_began (u p sg : Nat) (s : State) (ho : HasObj s p) : Began (s
         rcases hk with ⟨st, hst⟩ | hb
         · exact Or.inl ⟨st, hst⟩
         · exact Or.inr (Or.inl hb)
-      by_cases hok : ok = true
+      by_cases hok : ok = SigRes.ok
       · erw [if_pos hok]
         exact hB2.mono (squiet_callHook u "after_signal" s2).ext.toExt0 (hqk.ext.obj p ho1)
       · erw [if_neg hok]
         exact hB2
-  · erw [if_neg hc]
+  · unfold sendSignal
+    simp only [bind]
+    erw [if_neg hc]
     refine Or.inr (Or.inr (Or.inr (Or.inl (?_ : ¬ Listed s u p))))
     intro hl
     apply hc
     unfold Listed at hl
     simpa using hl
 
-/-- the rest of `send_signal_process` after the signal to the worker itself -/
-def sspTail (u p sg : Nat) (ok : Bool) (children : List Nat) : M Unit := do
-  if ok then notify u "kill" (some p)
-  for c in children do
-    let okc ← sendSignalChild p c sg
-    if okc then notify u "kill" (some c)
+/-- the rest of `send_signal_process` after the signal to the worker itself (`AccessDenied` of that signal ends it;
+    `signalKids`: the loop over the children, ended by the first child the daemon may not signal) -/
+def sspTail (u p sg : Nat) (ok : SigRes) (children : List Nat) : M Bool :=
+  if ok = .denied then pure false else do
+    if ok = .ok then notify u "kill" (some p)
+    signalKids u p sg children
 
 theorem sendSignalProcess_eq (u p sg : Nat) (r : Bool) :
     sendSignalProcess u p sg r = (do
       let cs ← kChildren p r
       match cs with
-      | none => pure ()
+      | none => pure true
       | some children => do
         let ok ← sendSignal u p sg
         sspTail u p sg ok children) := rfl
 
-theorem sspTail_s {I : State → Prop} (L : LeafS I) (u p sg : Nat) (ok : Bool) (children : List Nat) :
+theorem sspTail_s {I : State → Prop} (L : LeafS I) (u p sg : Nat) (ok : SigRes) (children : List Nat) :
     Pres I (sspTail u p sg ok children) := by
   unfold sspTail; sg
 
-theorem squietW_sspTail (u p sg : Nat) (ok : Bool) (children : List Nat) : SQuietWM (sspTail u p sg ok children) :=
+theorem squietW_sspTail (u p sg : Nat) (ok : SigRes) (children : List Nat) : SQuietWM (sspTail u p sg ok children) :=
   SQuietWM.of_pres fun s0 => sspTail_s (squietWLeafS s0) u p sg ok children
 
 /-- **`send_signal_process(p, sig)`** (the first phase with `stop_children`): the signal is in the
     log — or one of the exemptions of `Began` holds; in particular `NoSuchProcess` from `children()`
     means the process is gone -/
-theorem sendSignalProcess_began (u p sg : Nat) (r : Bool) (s : State) (hpid : PidInv s) (ho : HasObj s p) :
+theorem sendSignalProcess_began (u p sg : Nat) (r : Bool) (s : State) (hpid : PidInv s) (ho : HasObj s p)
+    (hok : (sendSignalProcess u p sg r s).1 = true) :
     Began (sendSignalProcess u p sg r s).2 u p sg := by
-  rw [sendSignalProcess_eq]
-  simp only [bind]
+  rw [sendSignalProcess_eq] at hok ⊢
+  simp only [bind] at hok ⊢
   have hq0 := squiet_kChildren p r s
+  revert hok
   cases hcs : (kChildren p r s).1 with
   | none =>
+    intro _
     simp only [pure]
     refine Or.inr (Or.inr (Or.inr (Or.inr ?_)))
     exact Kernel.children_none_gone s.k p r (hpid.objInK p ho) hcs
   | some children =>
-    simp only
+    intro hok
+    simp only at hok ⊢
     have ho1 := hq0.ext.obj p ho
-    have hB := sendSignal_began u p sg (kChildren p r s).2 ho1
+    -- had the worker's own signal been refused (`AccessDenied`), `send_signal_process` would not have returned
+    have hnd : (sendSignal u p sg (kChildren p r s).2).1 ≠ .denied := by
+      intro hd
+      rw [hd] at hok
+      have : (sspTail u p sg SigRes.denied children (sendSignal u p sg (kChildren p r s).2).2).1 = false := by
+        unfold sspTail
+        erw [if_pos rfl]
+        rfl
+      rw [this] at hok
+      cases hok
+    have hB := sendSignal_began u p sg (kChildren p r s).2 ho1 hnd
     have hq1 := squietW_sendSignal u p sg (kChildren p r s).2
     exact hB.mono (squietW_sspTail u p sg _ children _).ext.toExt0 (hq1.ext.obj p ho1)
 
 /-! ### a SIGKILL through `send_signal`, justified -/
 
 /-- the escalation sends nothing to a pid its watcher does not list (`send_signal` returns at once) -/
-theorem sendSignal_unlisted (u p sg : Nat) (s : State) (h : ¬ Listed s u p) : sendSignal u p sg s = (true, s) := by
+theorem sendSignal_unlisted (u p sg : Nat) (s : State) (h : ¬ Listed s u p) : sendSignal u p sg s = (.ok, s) := by
   unfold sendSignal
   simp only [bind]
   have hc : ¬ (getW u s).1.pids.contains p = true := by
@@ -447,13 +484,20 @@ theorem kKill_nine_si (jm : JM) (p : Nat) (s : State) (h : SI (some jm) s) (hj :
   cases hjm
   have hji := h.just jm rfl
   -- the kernel call, then the log entry
-  have hq1 := squiet_runK (fun k => k.kill p 9) (KGMono.kill p 9) (KNMono.kill p 9) (KStep.kill p 9) (KDMono.kill p 9) s
+  have hq1 := squiet_runK (fun k => k.killD p 9) (KGMono.killD p 9) (KNMono.killD p 9) (KStep.killD p 9) (KDMono.killD p 9) s
   have hj1 := hji.mono hq1.ext.toExt0 hq1.nn
-  have hpre1 : JPre jm.X (runK (fun k => k.kill p 9) s).2 p := hj.mono hq1.ext.toExt0
+  have hpre1 : JPre jm.X (runK (fun k => k.killD p 9) s).2 p := hj.mono hq1.ext.toExt0
   unfold kKill
   simp only [bind, pure]
-  generalize (runK (fun k => k.kill p 9) s) = r1 at hj1 hpre1 ⊢
-  obtain ⟨st, s1⟩ := r1
+  generalize (runK (fun k => k.killD p 9) s) = r1 at hj1 hpre1 ⊢
+  obtain ⟨⟨st, den⟩, s1⟩ := r1
+  cases den with
+  | true =>
+    -- refused by the kernel (EPERM): the entry carries the tag "!", it is no SIGKILL that went through
+    have hqe := squiet_emit (Obs.sig p 9 st ("" ++ "!")) rfl (by simp [Obs.isNine]) s1
+    exact hj1.mono hqe.ext.toExt0 hqe.nn
+  | false =>
+  simp only [Bool.false_eq_true, if_false]
   simp only [emit, modS]
   by_cases hb : (s1.blocked || (Obs.sig p 9 st "").isRep || (Obs.sig p 9 st "").isEv) = true
   · rw [if_pos hb]; exact hj1
@@ -513,7 +557,7 @@ theorem sendSignal_si_j (jm : JM) (u p sg : Nat) (s : State) (h : SI (some jm) s
         · exact absurd hl hn)
       generalize kKill p sg "" s1 = rk at hk
       obtain ⟨ok, s2⟩ := rk
-      by_cases hok : ok = true
+      by_cases hok : ok = SigRes.ok
       · erw [if_pos hok]
         exact callHook_s (siLeafS0 (some jm)) u "after_signal" s2 hk
       · erw [if_neg hok]
@@ -569,15 +613,26 @@ theorem sendSignalChild_si_j (jm : JM) (p c sg : Nat) (s : State) (h : SI (some 
     · erw [if_neg hc]
       exact h1
 
-theorem sspTail_si_j (jm : JM) (u p sg : Nat) (ok : Bool) (children : List Nat) (s : State) (h : SI (some jm) s)
+theorem sspTail_si_j (jm : JM) (u p sg : Nat) (ok : SigRes) (children : List Nat) (s : State) (h : SI (some jm) s)
     (ho : HasObj s p) : SI (some jm) (sspTail u p sg ok children s).2 := by
   have key : Pres (fun s' => SI (some jm) s' ∧ HasObj s' p) (sspTail u p sg ok children) := by
     have hn : ∀ q x, Pres (fun s' => SI (some jm) s' ∧ HasObj s' p) (notify u "kill" q x) := fun q x s' hs' =>
       ⟨notify_s (siLeafS0 (some jm)) u "kill" q x s' hs'.1, (squiet_notify u "kill" q x s').ext.obj p hs'.2⟩
     have hc : ∀ c, Pres (fun s' => SI (some jm) s' ∧ HasObj s' p) (sendSignalChild p c sg) := fun c s' hs' =>
       ⟨sendSignalChild_si_j jm p c sg s' hs'.1 hs'.2, (squietW_sendSignalChild p c sg s').ext.obj p hs'.2⟩
+    have hk : ∀ cs, Pres (fun s' => SI (some jm) s' ∧ HasObj s' p) (signalKids u p sg cs) := by
+      intro cs
+      induction cs with
+      | nil =>
+        unfold signalKids
+        aesop (erase notify_s, sendSignalChild_s, signalKids_s) (rule_sets := [Sg])
+          (config := { terminal := true, useDefaultSimpSet := false, useSimpAll := false, maxRuleApplications := 3000 })
+      | cons c cs ih =>
+        unfold signalKids
+        aesop (add safe 0 apply hn, safe 0 apply hc, safe 0 apply ih) (erase notify_s, sendSignalChild_s, signalKids_s) (rule_sets := [Sg])
+          (config := { terminal := true, useDefaultSimpSet := false, useSimpAll := false, maxRuleApplications := 3000 })
     unfold sspTail
-    aesop (add safe 0 apply hn, safe 0 apply hc) (erase notify_s, sendSignalChild_s) (rule_sets := [Sg])
+    aesop (add safe 0 apply hn, safe 0 apply hc, safe 0 apply hk) (erase notify_s, sendSignalChild_s, signalKids_s) (rule_sets := [Sg])
       (config := { terminal := true, useDefaultSimpSet := false, useSimpAll := false, maxRuleApplications := 3000 })
   exact (key s ⟨h, ho⟩).1
 
@@ -650,9 +705,16 @@ theorem killFinish_si {rec : Rec} (hrec : RecSI J rec) (u p : Nat) (esc : Bool) 
   cases esc with
   | true =>
     erw [if_pos rfl]
-    exact fin _ (sendSignalProcess_si u p 9 true s h ho (fun jm _ _ => Or.inr hb))
-      ((squietW_sendSignalProcess u p 9 true s).pendCount p |>.trans hc)
+    have h1 := sendSignalProcess_si u p 9 true s h ho (fun jm _ _ => Or.inr hb)
+    by_cases hr : (sendSignalProcess u p 9 true s).1 = true
+    · erw [if_neg (by rw [hr]; simp)]
+      exact fin _ h1 ((squietW_sendSignalProcess u p 9 true s).pendCount p |>.trans hc)
+    · -- the SIGKILL was refused (EPERM): `kill_process` ends with `AccessDenied`, the flag stays as it is
+      erw [if_pos (by simpa using hr)]
+      exact deliver_si hrec wt _ _ h1
   | false =>
+    erw [if_neg (by simp)]
+    simp only [pure]
     erw [if_neg (by simp)]
     exact fin _ h hc
 
@@ -718,26 +780,44 @@ theorem killProcess_si {rec : Rec} (hrec : RecSI J rec) (u p : Nat) (sig gt : Op
       · exact hc2
     by_cases hch : (getW u s).1.stopChildren = true
     · erw [if_pos hch]
-      erw [if_neg (by simp)]
+      simp only [bind, pure]
       have hq := squietW_sendSignalProcess u p sg false s
       have h2 := sendSignalProcess_si u p sg false s h ho (fun jm hj h9 => Or.inl (hX jm hj h9))
-      have hB := sendSignalProcess_began u p sg false s h.pid ho
-      exact tail _ h2 (hq.ext.obj p ho) hB ((hq.pendCount p).trans hc0)
+      by_cases hr : (sendSignalProcess u p sg false s).1 = true
+      · have hB := sendSignalProcess_began u p sg false s h.pid ho hr
+        simp only [hr, if_true]
+        erw [if_neg (by decide)]
+        erw [if_neg (by decide)]
+        exact tail _ h2 (hq.ext.obj p ho) hB ((hq.pendCount p).trans hc0)
+      · -- `AccessDenied` from the worker's or a child's signal: `kill_process` ends with it
+        have hr' : (sendSignalProcess u p sg false s).1 = false := by simpa using hr
+        simp only [hr', Bool.false_eq_true, if_false]
+        erw [if_pos trivial]
+        exact deliver_si hrec wt _ _ h2
     · erw [if_neg hch]
+      simp only [bind, pure]
       have hq := squietW_sendSignal u p sg s
       have h2 := sendSignal_si u p sg s h (fun jm hj h9 => Or.inl (Or.inr (Or.inl (hX jm hj h9))))
-      have hB := sendSignal_began u p sg s ho
       have ho2 := hq.ext.obj p ho
       have hc2 : pendCount (sendSignal u p sg s).2 p = 0 := (hq.pendCount p).trans hc0
-      by_cases hr : (sendSignal u p sg s).1 = true
-      · have hqn := squiet_notify u "kill" (some p) "-" (sendSignal u p sg s).2
+      cases hr : (sendSignal u p sg s).1 with
+      | ok =>
+        have hB := sendSignal_began u p sg s ho (by rw [hr]; decide)
+        have hqn := squiet_notify u "kill" (some p) "-" (sendSignal u p sg s).2
         have h3 := notify_s (siLeafS0 J) u "kill" (some p) "-" _ h2
         have key := tail _ h3 (hqn.ext.obj p ho2) (hB.mono hqn.ext.toExt0 ho2) ((hqn.pendCount p).trans hc2)
-        erw [if_pos hr]
-        erw [if_neg (by rw [hr]; simp)]
+        erw [if_pos rfl]
+        erw [if_neg (by decide)]
+        erw [if_neg (by decide)]
         exact key
-      · erw [if_neg hr]
-        erw [if_pos (by simp [hr]; rfl)]
+      | noSuch =>
+        erw [if_neg (by decide)]
+        erw [if_neg (by decide)]
+        erw [if_pos rfl]
+        exact deliver_si hrec wt _ _ h2
+      | denied =>
+        erw [if_neg (by decide)]
+        erw [if_pos rfl]
         exact deliver_si hrec wt _ _ h2
 
 end Circus.Core
